@@ -177,6 +177,15 @@ func runC05(r *mon.Run) {
 					w.Fail("c05/PublicKey", fmt.Sprintf("NewPrivateKey(%x).PublicKey() = %x, expected %x", s, k.PublicKey().Bytes(), oracle.EncodeUncompressed(want)), "s", hb(s))
 				}
 				v = k.PublicKey().Point()
+				// the same through the scalar constructor; the caller then reuses its scalar
+				cs := scalarFromBig(s)
+				k2, err := secec.NewPrivateKeyFromScalar(cs)
+				cs.Add(cs, secp256k1.NewScalarFromUint64(1))
+				if err != nil {
+					w.Fail("c05/NewPrivateKeyFromScalar", fmt.Sprintf("NewPrivateKeyFromScalar(%x): %v", s, err), "s", hb(s))
+				} else if d2 := bigFromScalar(k2.Scalar()); !bytes.Equal(k2.PublicKey().Bytes(), oracle.EncodeUncompressed(oracle.MulG(d2))) || d2.Cmp(s) != 0 {
+					w.Fail("c05/NewPrivateKeyFromScalar:public", fmt.Sprintf("key built from the scalar %x holds d = %x but its public key is %x (not d*G)", s, d2, k2.PublicKey().Bytes()), "s", hb(s))
+				}
 			}
 			if msg := expectPoint(v, want); msg != "" {
 				w.Fail("c05/"+e, fmt.Sprintf("%s(s=%x [%s]): %s", e, s, cl, msg), "s", hb(s), "class", cl)
